@@ -647,12 +647,22 @@ NEUTRAL = re.compile(r"to_owned$|Clone>::clone$|update_(leading_|trailing_)?triv
                      r"AsRef.*as_ref$|Borrow.*borrow$|Option::<.*>::(unwrap|expect|as_ref)$")
 
 
-def _formatted_root(f, o, depth=0, seen=None):
-    """the formatter call a node value came out of (through clones, trivia updates, with_*()), or None"""
+def _formatted_root(f, o, depth=0, seen=None, params=None):
+    """the formatter call a node value came out of (through clones, trivia updates, with_*(), the items of an iterator
+    over a formatted list), or None; `params` maps parameter locals to the formatter their value came out of"""
     seen = set() if seen is None else seen
     if is_const(o) or depth > 12:
         return None
     l = op_place(o)["l"]
+    if params and l in params:
+        return params[l]
+    items = _iter_item(f, o)
+    if items is not None:
+        for it in items:
+            r = _formatted_root(f, it, depth + 1, seen, params)
+            if r:
+                return r
+        return None
     if l in seen:
         return None
     seen.add(l)
@@ -662,20 +672,39 @@ def _formatted_root(f, o, depth=0, seen=None):
             if FORMATTERS.search(c):
                 return c
             if NEUTRAL.search(c) and s["args"]:
-                r = _formatted_root(f, s["args"][0], depth + 1, seen)
+                r = _formatted_root(f, s["args"][0], depth + 1, seen, params)
                 if r:
                     return r
         else:
             rv = s["rv"]
             if rv["k"] in ("use", "cast") and not is_const(rv["o"]):
-                r = _formatted_root(f, rv["o"], depth + 1, seen)
+                r = _formatted_root(f, rv["o"], depth + 1, seen, params)
                 if r:
                     return r
             elif rv["k"] == "ref":
-                r = _formatted_root(f, {"cp": rv["p"]}, depth + 1, seen)
+                r = _formatted_root(f, {"cp": rv["p"]}, depth + 1, seen, params)
                 if r:
                     return r
     return None
+
+
+VALUE_ADAPTORS = re.compile(r"Pair::<.*>::map$|Pair<.*>::map$|Option::<.*>::(map|and_then|map_or|map_or_else)$")
+
+
+def _closure_params(prog, g):
+    """a closure handed to Pair::map / Option::map receives the receiver's value: when that value came out of a
+    formatter, so did the closure's parameter"""
+    from r_directive import _closure_site
+    if "{closure" not in g.path or g.argc < 2:
+        return None
+    site = _closure_site(prog, g)
+    if site is None:
+        return None
+    parent, t = site
+    if not VALUE_ADAPTORS.search(callee(t)) or not t["args"]:
+        return None
+    r = _formatted_root(parent, t["args"][0], params=_closure_params(prog, parent))
+    return {2: r} if r else None
 
 
 def rule_once(ctx, prop):
@@ -684,25 +713,30 @@ def rule_once(ctx, prop):
     rep = Report(prop, "R-ONCE", "no formatter (format_* / hang_expression* / hang_punctuated_list / hang_type_info) is applied "
                                  "to a node that already came out of a formatter")
     for cfg, prog in ctx.programs.items():
-        n = 0
+        n = nparams = 0
         for f in prog.fns("stylua_lib"):
             if not f.path.startswith("formatters::"):
                 continue
+            params, n_f = None, 0
             for b, t in f.calls():
                 c = callee(t)
                 if not FORMATTERS.search(c):
                     continue
+                if n_f == 0:
+                    params = _closure_params(prog, f)
+                    nparams += 1 if params else 0
+                n_f += 1
                 n += 1
                 for i, a in enumerate(t["args"]):
                     if is_const(a) or not nodety(f.local_ty(op_place(a)["l"])):
                         continue
-                    r = _formatted_root(f, a)
+                    r = _formatted_root(f, a, params=params)
                     if r:
                         rep.violation(f"{f.key} formatted-node-formatted-again {c.split('::')[-1]}<-{r.split('::')[-1]}",
                                       f"{f.path} hands {c} a node that came out of {r}: its tokens were rebuilt without source "
                                       f"positions, so under a formatting range should_format_node answers NotInRange for them "
                                       f"(format_field then reaches unreachable!()), and ignore / toggle comments are judged twice",
                                       f.loc(t["sp"]), cfg)
-        rep.inst("formatter call sites receive unformatted nodes", {"call_sites": n}, cfg, ok=True)
+        rep.inst("formatter call sites receive unformatted nodes", {"call_sites": n, "closures_given_formatted_values": nparams}, cfg, ok=True)
         rep.floor("formatter call sites", n, 200, cfg)
     return rep
